@@ -185,3 +185,30 @@ package immutable
 //@   call (*CompactGroupBuilder).SwitchGroup
 //@     set switched = true
 //@   ensures asked && ln > 0 ==> switched
+
+// ================================================================ C01: recovery never reuses the name of an existing file
+//@ prop C01
+// The sequence counter restored at open (and used to name the files written by the recovery flush) is at
+// least the sequence of EVERY file that was loaded, ordered or out of order: otherwise the flush of replayed
+// log rows renames a new file over a committed one.
+//@ func (*fileLoadContext).update
+//@   requires fc != nil
+//@   ghost sq uint64 = 0
+//@   call .LevelAndSequence
+//@     set sq = ret1
+//@     frame nothing
+//@   call .MinMaxTime
+//@     frame nothing
+//@   ensures [covers_seq] fc.maxSeq >= sq && fc.maxSeq >= old(fc.maxSeq)
+//@ func (*fileLoadContext).setError
+//@   requires fc != nil
+//@   assigns fc.errCount, fc.firstErr
+//@ func (*fileLoader).addTSSPFile
+//@   requires fl != nil && fl.ctx != nil
+//@   ghost ok bool = false
+//@   ghost upd bool = false
+//@   call .LoadComponents
+//@     set ok = (ret0 == nil)
+//@   call (*fileLoadContext).update
+//@     set upd = upd || arg0 == f
+//@   ensures [every_file_counted] ok ==> upd
